@@ -277,7 +277,7 @@ def finish(extra=""):
 # ----------------------------------------------------------------------------------------------------------------
 def original_get_motl_subset(self, feature_values, feature_id="tomo_id", return_df=False, reset_index=True):
     Motl = cryomotl.Motl
-    if isinstance(feature_values, list):
+    if isinstance(feature_values, (list, np.ndarray)):
         feature_values = np.array(feature_values)
     else:
         feature_values = np.array([feature_values])
